@@ -16,6 +16,6 @@ CONSTANTS
 INIT Init
 NEXT Next
 VIEW View0
-INVARIANTS TypeOK MemoOK WarmIsBip9 ColdIsBip9 CacheSound SamePeriod Absorbing Diagram DefinedUntilStart StartedStep LockedInStep AlwaysNever StatsAgree
+INVARIANTS TypeOK MemoOK ShiftInvariant WarmIsBip9 ColdIsBip9 CacheSound SamePeriod Absorbing Diagram DefinedUntilStart StartedStep LockedInStep AlwaysNever StatsAgree
 ACTION_CONSTRAINT Emit
 CHECK_DEADLOCK FALSE
